@@ -11,6 +11,7 @@ import (
 	"path/filepath"
 	"strings"
 	"testing"
+	"unicode/utf8"
 
 	"github.com/ollama/ollama/server/internal/internal/names"
 	"github.com/ollama/ollama/types/model"
@@ -48,6 +49,57 @@ func c13DigestCase(out *zzverif.Out, c *DiskCache, s string) {
 	// hex cases are the same digest
 	if again, err := ParseDigest(d.String()); err != nil || again != d {
 		out.L2("digest-roundtrip", op, "ParseDigest(String()) differs")
+	}
+}
+
+// c13P2NCase ties blob.pathToName (what DiskCache.Links yields for a link path) to the model.
+func c13P2NCase(out *zzverif.Out, s string) string {
+	nm := pathToName(s)
+	out.Case("p2n "+zzverif.Hex([]byte(s)), zzverif.Hex([]byte(nm)))
+	out.Count("cases")
+	out.Count("p2n_cases")
+	return nm
+}
+
+// c13LinksCheck: DiskCache.Links() against an independent walk of the directory: Links yields pathToName of every
+// link in listing order (L2 links-vs-walk); a yielded name that is a valid name is read back to an EXISTING manifest,
+// namely the canonical (first) one among its case twins (L2 links-name-dangling).
+func c13LinksCheck(out *zzverif.Out, c *DiskCache, listing []string, op string) {
+	var got []string
+	for nm, err := range c.Links() {
+		if err != nil {
+			out.L2("links-vs-walk", op, "Links(): "+err.Error())
+			return
+		}
+		got = append(got, nm)
+	}
+	var want []string
+	for _, l := range listing {
+		if !utf8.ValidString(filepath.Dir(l)) {
+			out.Count("links_invalid_utf8_dir_skipped")
+			continue // io/fs refuses to open a directory whose path is not valid UTF-8: fs.Glob cannot descend into it
+		}
+		if !utf8.ValidString(l) {
+			out.Count("links_invalid_utf8_leaf") // ... but it reports such a FILE name (it never opens it)
+		}
+		want = append(want, c13P2NCase(out, l))
+	}
+	out.Count("links_checks")
+	if strings.Join(got, "\x00") != strings.Join(want, "\x00") {
+		out.L2("links-vs-walk", op, fmt.Sprintf("Links() = %q, walk + pathToName = %q", got, want))
+		return
+	}
+	for _, nm := range got {
+		if _, err := nameToPath(nm); err != nil {
+			continue
+		}
+		out.Count("links_names_valid")
+		p, err := c.manifestPath(nm)
+		if err != nil {
+			out.L2("links-name-dangling", op, fmt.Sprintf("Links() yields %q, manifestPath: %v", nm, err))
+		} else if _, serr := os.Stat(p); serr != nil {
+			out.L2("links-name-dangling", op, fmt.Sprintf("Links() yields %q, which addresses the missing file %s", nm, p))
+		}
 	}
 }
 
@@ -93,6 +145,13 @@ func c13ManifestCase(out *zzverif.Out, cc *c13Cache, s string) (string, bool) {
 	for _, l := range cc.links {
 		if l == "manifests/"+rel {
 			isLink = true
+		}
+	}
+	// the name Links() would print for this path (L1), read back to the same path when the cache itself creates it
+	listed := c13P2NCase(out, "manifests/"+rel)
+	if !isLink {
+		if back, err := nameToPath(listed); err != nil || back != np {
+			out.L2("links-name-roundtrip", "n2p "+zzverif.Hex([]byte(s)), fmt.Sprintf("nameToPath(pathToName(manifests/%s)) = %q, %v; want %q", rel, back, err, np))
 		}
 	}
 	if !isLink {
@@ -397,6 +456,8 @@ func c13History(t *testing.T, out *zzverif.Out, init []string, ops []c13HOp) {
 				}
 			}
 		}
+		// (c) Links() against the independent walk, and its names read back
+		c13LinksCheck(out, c, listing, op)
 		// (b) every spelling of every name used so far — the three generic ones AND every spelling that
 		//     exists on disk — resolves to the same file (or none does)
 		for _, nm := range pool {
@@ -656,6 +717,8 @@ func TestVerifC13(t *testing.T) {
 			if init, ops, ok := c13ParseHistory(f); ok {
 				c13History(t, out, init, ops)
 			}
+		case len(f) == 2 && f[0] == "p2n":
+			c13P2NCase(out, string(zzverif.Unhex(f[1])))
 		case len(f) == 2 && f[0] == "snd":
 			c13ResolveCase(out, empty, string(zzverif.Unhex(f[1])))
 		case len(f) == 3 && f[0] == "fold":
@@ -703,6 +766,19 @@ func TestVerifC13(t *testing.T) {
 		class, s := zzverif.C13Digest(r)
 		out.Count("digest_class_" + class)
 		c13DigestCase(out, empty.c, s)
+	}
+	// pathToName on arbitrary strings (with and without the manifests/ prefix, multi-byte and invalid UTF-8)
+	p2nAlpha := []byte{'/', ':', 'a', 'B', '.', 0x80, 0xFF, 0xC5, 0xBF, 0xE2}
+	zzverif.C13Exhaustive(p2nAlpha, zzverif.EnvInt("VERIF_EXH", 3)+1, func(s string) {
+		c13P2NCase(out, s)
+		c13P2NCase(out, "manifests/"+s)
+		c13P2NCase(out, "manifests/h/n/"+s)
+		out.Count("exhaustive_p2n")
+	})
+	for _, pre := range []string{"", "manifests", "manifests/", "manifests//", "Manifests/", "manifests/manifests/", "/manifests/"} {
+		for _, body := range []string{"", "a", "/", "a/b", "a/b/c/d", "/a", "é/b", "\xe2\x84\xaa/K/\u017f/\xc5", "\xf0\x9f\x98\x80/\xf0\x9f\x98", "\xed\xa0\x80/x", "\xe0\x80\x80/x", "\xf4\x90\x80\x80/x", "\xc0\xaf/x", "\xef\xbf\xbd/x"} {
+			c13P2NCase(out, pre+body)
+		}
 	}
 	// names against an empty cache
 	zzverif.C13Exhaustive(zzverif.C13Alphabet, zzverif.EnvInt("VERIF_EXH", 3), func(s string) {
